@@ -8,6 +8,9 @@ R3 copy-up fidelity      directories: mkdir with the original st_mode (explicit 
                          then release; symlinks: readlink -> symlink; what replaces the lower inodes
 R4 marker agreement      what create_whiteout / set_opaque write is what is_whiteout / is_opaque recognise after a restart
 R5 shared with C10       every mutation goes to the upper layer (C10.R1) and the union rules that re-read the markers (C10.R4)
+R2 (cont.)              the helper asks every lower layer before it answers or moves on
+R6 live tree             created nodes are registered (inode table, parent's children) on every path after creation; removed nodes are unregistered after the upper entry is gone
+R7 preconditions         polarity table of the tests in front of the modifying steps (set_opaque/is_opaque on directories only, create_upper_dir recursion, copy-up parent creation, no creation below a whiteout, link source/target)
 """
 import json
 import re
@@ -676,3 +679,4 @@ META = {
     "note": "Not decided: equality of the restarted view with the live view over all histories and crash points (run-time quantities); copy-up of "
             "timestamps/xattrs (the code itself marks these as not implemented).",
 }
+META["text"] += " " + 'Also: live-tree registration/unregistration around create and remove, a polarity table of the preconditions of the modifying steps, ENODATA read as not-opaque.'
